@@ -26,6 +26,10 @@ def set_targets(r, impl, old, pat, v, d):
     if bumped:
         out.append((bumped, "greater"))
         out.append((bumped + r.choice([".5", "x", "-", " ", "0"]), "malformed-suffix"))
+        # the match is case sensitive and covers the whole argument: re-cased literal text / tags and surrounding whitespace are not part of a version
+        if bumped.swapcase() != bumped:
+            out.append((bumped.swapcase(), "must-reject:case-flipped"))
+        out.append((bumped + r.choice(["\n", " ", "\t"]), "must-reject:trailing-whitespace"))
     out.append((old, "equal"))
     lower = impl.v2version.format_version(v._replace(major=max(0, v.major - 1), year_y=(v.year_y or 2000) - 1, year_g=(v.year_g or 2000) - 1,
                                                      bid=str(max(1000, int(v.bid)) - 1) if int(v.bid) > 1000 else v.bid), pat)
@@ -120,6 +124,8 @@ def run(rep, tier, seed, model_ok=True, effort=1):
             rep.case((old, pat, kind, setv, str(sorted(use_fl.items()))), nontrivial=code == 0)
             rep.count("kind=%s:%s" % (kind, "exit0" if code == 0 else "nonzero"))
             oracle(rep, impl, args, old, pat, code, out, exc)
+            if code == 0 and kind.startswith("must-reject"):
+                rep.violation("--set-version %r (%s) is accepted: it does not match the pattern %r in full" % (setv, kind.split(":")[1], pat), input=dict(args=args, out=out), **{"class": "not-full-match"})
             new = impl.parse_new_version(out) if code == 0 else None
             pep = impl.parse_pep440_line(out) if code == 0 else None
             exp = "(Exit0 %s %s)" % (cs(new), cs(pep if pep is not None else new)) if code == 0 and new is not None else "ExitErr"
